@@ -1351,7 +1351,14 @@ int main(int argc, char **argv)
       unsigned nl = LI.getLoopsInPreorder().size();
       for (auto &kv : ct->loops)
         if (kv.first >= nl)
+        {
+          if (nl == 0)
+          { // the current code of this function has no loop at all: its loop contracts have nothing to attach to and are not needed
+            errs() << "ir2c: note: loop contract of " << dn << " loop " << kv.first << " not applied: the function has no loop in the current code\n";
+            continue;
+          }
           die("loop contract for a loop ordinal that does not exist (must-fire): " + dn + " loop " + std::to_string(kv.first));
+        }
     }
     std::string def = E.run(ct);
     FnEmitter P(C, F);
